@@ -8,6 +8,7 @@ import Driver.Util
   a2f <in> <out> <s> <b> <mn|_> <mx|_> <n2z> <vals>   array_to_file with free stored (s, b)
         -> `ok [raw,...]` | `ERR:<kind>`
   var <cls> <in> <out> <vals>                     writer decisions only -> `ok <s=1?> <b=0?> <sign s>` | `ERR:<kind>`
+  fr <in> <vals>                                  finite_range -> `<mn> <mx> <has_nan>` | `none <has_nan>`
   shr <p> <out>                                   shared_range -> `<mn> <mx>`
   fe <p> <v>                                      floor_exact / ceil_exact -> `<floor> <ceil>`
 -/
@@ -89,6 +90,14 @@ def handle : List String → String
           | .ok raw => "ok " ++ showList raw
           | .error e => showErr e
       | _, _, _, _, _, _, _, _ => "bad-op"
+  | ["fr", i, vals] =>
+      match parseIn? i, parseVals? vals with
+      | some _, some vs =>
+          let (fr, hn) := finiteRange vs
+          (match fr with
+           | none => "none"
+           | some (a, b) => showRat a ++ " " ++ showRat b) ++ (if hn then " 1" else " 0")
+      | _, _ => "bad-op"
   | ["shr", p, o] =>
       match p.toNat?, parseOut? o with
       | some p, some o => let (a, b) := sharedRange p o; toString a ++ " " ++ toString b
